@@ -21,16 +21,23 @@ MANIFEST = {
             "diffdb.Database, sync, all listed code at once. Stuck configurations are proved for each unsafe pattern (nested RLock with "
             "a queued writer - reachable from the old blockCache.last -, RLock/Lock under Lock, order inversion, blocking under a lock). "
             "Bulk lookups: per-index slots / locked appends return every existing item exactly once for every schedule, racy append "
-            "provably loses items; the translator classifies every goroutine fan-out of the listed files (none racy). Tie to the running "
+            "provably loses items; the translator classifies every goroutine fan-out of the listed files (none racy). Complete blocks: a "
+            "getter that reads all parts of a block through one snapshot returns exactly the committed block or not-found in every "
+            "state of every history of batches, separate reads provably return a block no state contains; the translator checks that "
+            "every multi-part getter reads through one db snapshot. Tie to the running "
             "code: harness built with -race drives the real Chain/DataAccess on in-memory pebble (N readers + one writer adding/removing "
             "blocks; concurrent GetBlockHeaders / GetBlockHeadersByHeights / GetTransactions / GetBlocksBetweenHeight compared as multisets "
             "with the sequential answer), certificate pool add/select/cleanup/upgrade, event publish/subscribe/close with live "
-            "subscribers, diffdb prefix views; each under a watchdog. A race report, hang, panic or multiset mismatch is a violation.",
+            "subscribers, diffdb prefix views; torn (cache of 2, long removal runs of blocks with transactions: every block returned by "
+            "GetBlockByHeight/GetBlock/GetBlocksBetweenHeight/LastBlock must be byte-identical to a committed block, tip never nil); "
+            "evclose/evquit (Close, Unsubscribe, Subscribe racing with Publish, consumers that stop reading before Close or unsubscribe "
+            "themselves); syncfan (real sync.Syncer over loopback libp2p with 9 peers: blockSyncer.Sync's per-peer fan-out); each under a "
+            "watchdog. A race report, hang, panic, torn block or multiset mismatch is a violation.",
     "note": "Partial by nature: the Go memory model and scheduler are outside Coq; the theorem is about skeletons (lock discipline), "
             "data-race freedom itself is sampled by the race detector on the harness schedules. Assumptions: sync.RWMutex is "
-            "writer-preferring; event subscribers are live (their channel sends are opaque calls); opaque calls under a lock return; "
-            "all instances of a lock field are one lock class (the discipline forbids holding two of a class). blockSyncer.Sync and the "
-            "sync RPC handlers are covered by the skeleton/fan-out classification only (no peer network in the harness). Trusted: Coq "
+            "writer-preferring; a send to a subscriber returns once the subscriber receives or the subscription is removed (opaque call in "
+            "the skeleton); opaque calls under a lock return; "
+            "all instances of a lock field are one lock class (the discipline forbids holding two of a class). Trusted: Coq "
             "kernel + vm_compute, translate/skeletons, Go race detector, harness, Python glue.",
 }
 SCENARIOS = ["cache", "bulk", "torn", "certpool", "events", "evclose", "evquit", "diffdb", "syncfan"]
